@@ -140,6 +140,8 @@ pub fn run_live(rep: &mut Report, targets: u64, per_target: u64) {
             let mode = if rng.chance(1, 3) { Mode::Spin } else { Mode::Pause };
             b.sentinel(&mut rng, mode, &StackShape::default(), None, None);
         }
+        // a thread of the target that is NOT listed (null stack pointer: deliberately skipped)
+        let unlisted_idx = b.sentinel(&mut rng, Mode::Pause, &StackShape { pages: 0, sp_offset: 0, ..Default::default() }, Some(b"nullsp".to_vec()), None);
         let t = match Target::spawn(b.spec.clone(), &b.opts) {
             Ok(t) => t,
             Err(e) => {
@@ -148,12 +150,15 @@ pub fn run_live(rep: &mut Report, targets: u64, per_target: u64) {
             }
         };
         for k in 0..per_target {
-            // blamed thread: main, another listed thread, or a tid not in the process
-            let which = rng.below(10);
+            // blamed thread: main, another listed thread, a thread of the target that is not
+            // listed, or a tid not in the process
+            let which = rng.below(12);
             let (blamed, present) = if which < 3 {
                 (t.pid, true)
             } else if which < 8 {
                 (t.manifest.tids[b.sentinels[rng.usize_below(n)].index], true)
+            } else if which < 10 {
+                (t.manifest.tids[unlisted_idx], true)
             } else {
                 (t.pid + 100_000 + rng.below(1000) as i32, false)
             };
@@ -172,7 +177,7 @@ pub fn run_live(rep: &mut Report, targets: u64, per_target: u64) {
                 dump::dump(&o)
             };
             let desc = fnv(format!("{which}/{with_ctx}/{:?}", o.crash.as_ref().map(|c| c.gregs.clone())).as_bytes());
-            let case = json!({"blamed": if blamed == t.pid { "main" } else if present { "other listed thread" } else { "tid not in the process" }, "with_crash_context": with_ctx});
+            let case = json!({"blamed": if blamed == t.pid { "main" } else if blamed == t.manifest.tids[unlisted_idx] { "thread of the target that is not listed" } else if present { "other listed thread" } else { "tid not in the process" }, "with_crash_context": with_ctx});
             match out {
                 Outcome::Ok(img) => {
                     let im = image::decode(&img);
@@ -261,6 +266,10 @@ pub fn run_live(rep: &mut Report, targets: u64, per_target: u64) {
 pub fn run(rep: &mut Report, thorough: bool) {
     crate::util::install_quiet_panic_hook();
     rep.rule = "direct: random and walking-one (one source field unique, all others zero) ucontext/fpstate contents through the public CrashContext::fill_cpu_context, compared field by field with an own decoding table. live: real dumps with random crash contexts / siginfo and blamed thread in {main, other listed thread, tid not in the process}, with and without crash context; exception record, context location identity with the blamed thread's entry, and both contexts are compared. distinct = hash of the context bytes; non-trivial = a context was compared".into();
+    if cfg!(miri) {
+        run_direct(rep, 150);
+        return;
+    }
     run_direct(rep, if thorough { 200_000 } else { 20_000 });
     let (t, p) = if thorough { (150, 20) } else { (10, 12) };
     run_live(rep, t, p);
